@@ -107,19 +107,26 @@ def single_fault_cases(tier, r):
                                       'label': act['label'],
                                       'rules': [F.rule(kind, nth, act, attempt=2 if pre else 1)]})
     if tier == 'quick':
-        # stratified sample: every (position, fault family) for n_ids=1 with a pre-existing pair, the rest sampled
+        # stratified sample: the positions from finalize to the download (where a new key exists and a body is handled) are kept for every
+        # fault label and every (pre-existing pair, kp_reuse) variant of the 1-identifier issuance; the earlier positions are sampled per family
         keep = []
         seen = set()
         r.shuffle(cases)
+        late, early = [], []
         for c in cases:
             fam = c['label'].split(':')[0]
-            key = (c['kind'], c['nth'], fam, c['pre'], c['kp_reuse']) if (c['n_ids'] == 1) else (c['kind'], c['nth'], fam)
-            late = F.phase_of(c['kind'], c['nth']) if hasattr(F, 'phase_of') else None
-            if key not in seen:
-                seen.add(key)
-                keep.append(c)
-        r.shuffle(keep)
-        cases = keep[:260]
+            if phase_of(c['kind'], c['nth']) == 'finalize..download' and c['n_ids'] == 1:
+                k = (c['kind'], c['nth'], c['label'] if fam in ('cert-body', 'status=', 'missing', 'close-after', 'close-mid-body', 'close-before', 'bad-json') or c['label'].startswith('status=') else fam, c['pre'], c['kp_reuse'])
+                if k not in seen:
+                    seen.add(k)
+                    late.append(c)
+            else:
+                k = (c['kind'], c['nth'], fam)
+                if k not in seen:
+                    seen.add(k)
+                    early.append(c)
+        r.shuffle(early)
+        cases = late + early[:110]
     for i, c in enumerate(cases):
         c['i'] = i
     return cases
